@@ -201,7 +201,8 @@ Proof.
     { destruct ds as [|d0 r]; destruct M as [-> _]; [split; reflexivity|].
       inversion SM as [|? ? [_ SB] _]; subst. split; [exact SB|]. apply N.ltb_lt. unfold blen. lia. }
     destruct NX as [NX1 NX2].
-    rewrite read_blob_trailer; [|reflexivity|reflexivity|exact NX1]. cbn [b_ok b_next negb].
+    rewrite read_blob_trailer; [|reflexivity|reflexivity|exact NX1]. cbn [b_ok].
+    rewrite SK, EQ. rewrite read_blob_trailer; [|reflexivity|reflexivity|exact NX1]. cbn [b_ok b_next negb].
     rewrite NX2. rewrite tail_ok_archive; [|exact SM|lia].
     assert (TK : takeN (lenN pre) (archive c h fs0 ds) = pre).
     { unfold archive, pre.
